@@ -345,6 +345,10 @@ class Sim:
             return
         can_id, ext, data, fd = fr
         ev = self.log({"ev": "rx", "node": n.name, "id": can_id, "data": list(data)})
+        if via_listener:
+            f = flags or {}
+            ev["flags"] = {"ext": bool(f.get("ext", True)), "remote": bool(f.get("remote", False)),
+                           "error": bool(f.get("error", False))}
         self.touch(n)
         self.depth += 1
         try:
